@@ -394,6 +394,15 @@ def _subscript_stores(core, attr):
 MUTATORS = ('pop', 'popitem', 'clear', 'update', 'setdefault', '__setitem__', '__delitem__', 'remove', 'discard')
 
 
+def _key_text(fnode, e):
+    """the text of a key expression, a local that is assigned once standing for what it was assigned"""
+    if isinstance(e, ast.Name):
+        defs_ = [m.value for m in ast.walk(fnode) if isinstance(m, ast.Assign) and len(m.targets) == 1 and isinstance(m.targets[0], ast.Name) and m.targets[0].id == e.id]
+        if len(defs_) == 1:
+            return unparse(defs_[0])
+    return unparse(e)
+
+
 def k6_single_value_writer(core, rep):
     s = core.solver
     af = s.attempt
@@ -404,7 +413,7 @@ def k6_single_value_writer(core, rep):
     for rel, fn, st, t in stores:
         key = f'{fn.name if fn else "<module>"}@{unparse(st, 80)}'
         ok = fn is af.node and isinstance(st, ast.Assign) and isinstance(st.value, ast.Call) and call_name(st.value) == 'value' \
-            and attr_text(st.value.func.value) == field_param and unparse(t.slice) == f'{field_param}.name()' \
+            and attr_text(st.value.func.value) == field_param and _key_text(af.node, t.slice) == f'{field_param}.name()' \
             and stmt_of(st) in s.try_.body
         rep.ob('K6', 'value-store-write/' + key, ok,
                f'the value store is written by `{unparse(st)}` in {fn.name if fn else rel}(): the only allowed write is '
@@ -481,6 +490,24 @@ def k7_missing_key_raises(core, rep):
            'FormAccessor no longer qualifies exactly the dot-free keys with the owning form name', _w(fa))
 
 
+
+def _prompt_pair(ai_node, prompt_attr):
+    """The statement of _attempt_input that binds the pair the prompt returns, as (statement whose target is the 2-tuple, the call
+    of the prompt, the intermediate statement or None).  `value, supplied = self._prompt(...)` and the two-step
+    `answer = self._prompt(...); value, supplied = answer` (a local assigned once) are the same thing."""
+    for n in ast.walk(ai_node):
+        if isinstance(n, ast.Assign) and isinstance(n.value, ast.Call) and self_attr(n.value.func) == prompt_attr and len(n.targets) == 1:
+            if isinstance(n.targets[0], ast.Tuple):
+                return n, n.value, None
+            if isinstance(n.targets[0], ast.Name):
+                nm = n.targets[0].id
+                defs_ = [m for m in ast.walk(ai_node) if isinstance(m, (ast.Assign, ast.AugAssign)) and any(isinstance(t, ast.Name) and t.id == nm for t in (m.targets if isinstance(m, ast.Assign) else [m.target]))]
+                later = [m for m in ast.walk(ai_node) if isinstance(m, ast.Assign) and isinstance(m.value, ast.Name) and m.value.id == nm and len(m.targets) == 1 and isinstance(m.targets[0], ast.Tuple)]
+                if len(defs_) == 1 and len(later) == 1:
+                    return later[0], n.value, n
+    return None, None, None
+
+
 def k8_input_store_writes(core, rep):
     s = core.solver
     ai = core.func(s.rel, s.name, '_attempt_input')
@@ -490,13 +517,13 @@ def k8_input_store_writes(core, rep):
         return
     g = ai.cfg
     # the prompt call and the names it binds
-    pc = [n for n in ast.walk(ai.node) if isinstance(n, ast.Assign) and isinstance(n.value, ast.Call) and self_attr(n.value.func) == s.prompt]
-    ok_prompt = len(pc) == 1 and isinstance(pc[0].targets[0], ast.Tuple) and len(pc[0].targets[0].elts) == 2
+    pair, pcall, _mid = _prompt_pair(ai.node, s.prompt)
+    ok_prompt = pair is not None and len(pair.targets[0].elts) == 2 and all(isinstance(e, ast.Name) for e in pair.targets[0].elts)
     rep.ob('K8', 'prompt-returns-(value, supplied)', ok_prompt, f'_attempt_input() does not unpack (value, supplied) from the prompt', _w(ai))
     if not ok_prompt:
         return
-    val, sup = [e.id for e in pc[0].targets[0].elts]
-    missing = unparse(pc[0].value.args[0]) if pc[0].value.args else None
+    val, sup = [e.id for e in pair.targets[0].elts]
+    missing = unparse(pcall.args[0]) if pcall.args else None
     for rel, fn, st, t in stores:
         key = f'{fn.name if fn else "<module>"}@{unparse(st, 70)}'
         ok = fn is ai.node and isinstance(st, ast.Assign) and unparse(st.value) == val and unparse(t.slice) == f'{missing}.name()'
@@ -607,8 +634,8 @@ def k10_refusal(core, rep):
     ai = core.func(s.rel, s.name, '_attempt_input')
     g = ai.cfg
     sets = [n for n in g.nodes if n.kind == 'stmt' and isinstance(n.ast, ast.Assign) and self_attr(n.ast.targets[0]) == s.refused]
-    pc = [n for n in ast.walk(ai.node) if isinstance(n, ast.Assign) and isinstance(n.value, ast.Call) and self_attr(n.value.func) == s.prompt]
-    sup = pc[0].targets[0].elts[1].id if pc and isinstance(pc[0].targets[0], ast.Tuple) else None
+    pair, _pcall, _mid = _prompt_pair(ai.node, s.prompt)
+    sup = pair.targets[0].elts[1].id if pair is not None and len(pair.targets[0].elts) == 2 and isinstance(pair.targets[0].elts[1], ast.Name) else None
     ok = bool(sets) and all((sup, False) in g.branch_facts(n) for n in sets)
     # and on the not-supplied branch the flag is always set
     fnodes = [n for n in g.nodes if n.kind == 'F' and unparse(n.ast) == sup] + [n for n in g.nodes if n.kind == 'T' and unparse(n.ast) == f'not {sup}']
@@ -1270,7 +1297,9 @@ def k20_ctrl_c(core, rep):
         raise AnalysisError('_attempt_input: prompt call not found')
     if not rep.ob('K20', 'answer-stored', store is not None, '_attempt_input() does not store the answer in the input store: an interruption loses it', _w(ai)):
         return
-    between = [n for n in g.nodes if n.kind == 'stmt' and n not in (pc, store) and g.dominates(pc, n) and g.dominates(n, store)]
+    pair_, _pc2, mid_ = _prompt_pair(ai.node, s.prompt)
+    unpack = pair_ if mid_ is not None else None          # the second step of a two-step unpacking of the prompt's pair converts nothing
+    between = [n for n in g.nodes if n.kind == 'stmt' and n not in (pc, store) and n.ast is not unpack and g.dominates(pc, n) and g.dominates(n, store)]
     ok = all(isinstance(n.ast, ast.Assert) for n in between)
     rep.ob('K20', 'answer-stored-immediately', ok, f'between receiving an answer and storing it _attempt_input() does more than assert validity: {[unparse(n.ast, 50) for n in between]}', _w(ai))
 
@@ -2545,8 +2574,11 @@ def k24_tracker_shape(core, rep, parts=('a', 'b', 'c', 'd')):
         f = core.method('DependencyTracker', 'meet')
         g = f.cfg
         dep = f.node.args.args[1].arg
-        recs = [n for n in g.nodes if n.kind == 'stmt' and n.ast is not None and any(
-            call_name(c) == 'append' and self_attr(c.func.value) == '_met' and [unparse(a) for a in c.args] == [dep] for c in calls_in(n.ast))]
+        recs = [n for n in g.nodes if n.kind == 'stmt' and n.ast is not None and (any(
+            call_name(c) == 'append' and self_attr(c.func.value) == '_met' and [unparse(a) for a in c.args] == [dep] for c in calls_in(n.ast))
+            # `self._met += [dep]` / `self._met.extend([dep])` extend the very list in place, like append
+            or any(isinstance(x, ast.AugAssign) and isinstance(x.op, ast.Add) and self_attr(x.target) == '_met' and isinstance(x.value, ast.List) and [unparse(e) for e in x.value.elts] == [dep] for x in ast.walk(n.ast))
+            or any(call_name(c) == 'extend' and self_attr(c.func.value) == '_met' and len(c.args) == 1 and isinstance(c.args[0], (ast.List, ast.Tuple)) and [unparse(e) for e in c.args[0].elts] == [dep] for c in calls_in(n.ast)))]
         ok = bool(recs) and not g.paths_avoiding(g.entry, g.exit, {n.id for n in recs})
         rep.ob('K24b', 'meet-records-every-satisfied-dependency', ok, 'DependencyTracker.meet() has a path on which the satisfied dependency is not recorded', _w(f))
     if 'c' in parts:
@@ -2582,6 +2614,9 @@ def k24_tracker_shape(core, rep, parts=('a', 'b', 'c', 'd')):
                 continue
             for x in ast.walk(m):
                 if isinstance(x, (ast.Assign, ast.AugAssign)) and any(self_attr(t_) in ('_met', '_unmet') for t_ in (x.targets if isinstance(x, ast.Assign) else [x.target])):
+                    # `+=` on a list extends it in place (the same object, nothing is forgotten); every other (re)binding is a wipe
+                    if isinstance(x, ast.AugAssign) and isinstance(x.op, ast.Add) and self_attr(x.target) == '_met' and isinstance(x.value, (ast.List, ast.Tuple)):
+                        continue
                     wipes.append((mname, x))
                 if isinstance(x, ast.Call) and isinstance(x.func, ast.Attribute) and x.func.attr == 'clear' and self_attr(x.func.value) in ('_met', '_unmet'):
                     wipes.append((mname, x))
